@@ -46,7 +46,7 @@ class C06:
     rule = ("valid texts (hand-built and random schemas incl. free-form sections and default-created single sections) "
             "rendered over several lines with comments of all styles, multi-line strings, backslash-newline continuations, "
             "nested sections and 0-2 levels of top-level include files; for each base text one sub-case per token position "
-            "with an injected error (wrong token kind / deletion / cut / bad escape / unterminated string / bad value / a name "
+            "with an injected error (wrong token kind / deletion / cut / bad escape / unterminated string / bad value / a refusing callback / a name "
             "written with the path characters | and =), in the "
             "main text or inside an included file, via buffer or file. Oracle: language model gives accept/reject and the "
             "offending token; reject => PARSE_ERROR, >= 1 diagnostic, last diagnostic names the token's file and the line on "
@@ -59,6 +59,7 @@ class C06:
         text = gen_text.render(sub["main"])
         files = {n: gen_text.render(t) for n, t in (sub.get("files") or {}).items()}
         m = Model(schema, flags, files=files)
+        m.fail_at = sub.get("cbfail", 0)       # the k-th callback invocation refuses (and reports through the context it was given)
         exp = m.parse(text, filename=main_name)
         e = res["parse"]
         info = {"nontrivial": False, "classes": []}
@@ -123,7 +124,7 @@ class C06:
                   [["parse_buf", 1, hx("# first input\n\n\n")]]
 
         def run(sublist):
-            ex = [{"flags": flags, "text": gen_text.render(s["main"]), "via": via, "pre": pre,
+            ex = [{"flags": flags, "text": gen_text.render(s["main"]), "via": via, "pre": pre, "cbfail": s.get("cbfail"),
                    "files": {n: gen_text.render(t) for n, t in (s.get("files") or {}).items()}} for s in sublist]
             return run_subs(get_ex, schema, ex)
 
@@ -168,6 +169,9 @@ class C06:
                 opts = HAND[sc]
             else:
                 opts = draw(schemas(nocase=bool(flags & F_NOCASE), allow_deprecated=False, allow_ptr=False))
+                if draw(st.integers(0, 2)) == 0:
+                    from c14 import decorate
+                    opts = decorate(opts, draw)       # value-parsing and validation callbacks on options and sections
                 if not any(o["n"].lower() == "include" for o in opts):
                     opts = opts + [o_func("include", "include")]
                 sc = opts
@@ -212,6 +216,11 @@ class C06:
                     p = draw(st.integers(0, len(main)))
                     main.insert(p, ["c", draw(st.sampled_from([" x", "", " y\n", " *z\n*\n"])), "block"])
             subs = [{"main": main, "files": files}]
+            # a callback that refuses: the diagnostic it issues carries the position the parser has reached
+            m0 = Model(opts, flags, files={n: gen_text.render(t) for n, t in files.items()})
+            if m0.parse(gen_text.render(main)).get("accept") and m0.cbseq:
+                for k in sorted(set([1, m0.cbseq] + [draw(st.integers(1, m0.cbseq)) for _ in range(3)])):
+                    subs.append({"main": main, "files": files, "cbfail": k})
             idx = [i for i, t in enumerate(main) if t[0] in ("s", "p")]
             for i in idx:
                 kind = draw(st.sampled_from(["wrong", "del", "cut", "badesc", "unterm", "badval", "wrong", "cut", "pathname"]))
